@@ -190,6 +190,37 @@ type explorer struct {
 	tc            g.TypeCache
 }
 
+// standaloneTest renders a violation as a plain Go test against the public API (no explorer needed):
+// put it next to parser.go as zz_replay_test.go and run `go test -run TestVerifReplay .`.
+func standaloneTest(gr *gfam.Grammar, in string, k int, at bool, modelAccepts bool, modelAST string) string {
+	var sb strings.Builder
+	sb.WriteString("package participle_test\n\nimport (\n\t\"testing\"\n\n\t\"github.com/alecthomas/participle/v2\"\n\t\"github.com/alecthomas/participle/v2/lexer\"\n)\n\nvar _ lexer.Token\n\n")
+	sb.WriteString("var verifLexer = lexer.MustSimple([]lexer.SimpleRule{{Name: \"Ident\", Pattern: `[a-zA-Z]`}, {Name: \"Int\", Pattern: `[0-9]`}, {Name: \"Punct\", Pattern: `;`}, {Name: \"Space\", Pattern: ` `}, {Name: \"Comment\", Pattern: `#`}, {Name: \"NL\", Pattern: `\\n`}})\n\n")
+	decls := gr.Root.GoDecls()
+	sb.WriteString(decls)
+	fmt.Fprintf(&sb, "func TestVerifReplay(t *testing.T) {\n\topts := []participle.Option{participle.Lexer(verifLexer), participle.UseLookahead(%d)", k)
+	for _, e := range gr.Elide {
+		fmt.Fprintf(&sb, ", participle.Elide(%q)", e)
+	}
+	for _, c := range gr.CI {
+		fmt.Fprintf(&sb, ", participle.CaseInsensitive(%q)", c)
+	}
+	for _, u := range gr.Root.Unions() {
+		fmt.Fprintf(&sb, ", participle.Union[%s](", u.Name)
+		for i, m := range u.Members {
+			if i > 0 {
+				sb.WriteString(", ")
+			}
+			sb.WriteString(m.Name + "{}")
+		}
+		sb.WriteString(")")
+	}
+	fmt.Fprintf(&sb, "}\n\tp := participle.MustBuild[%s](opts...)\n\tv, err := p.ParseString(\"\", %q, participle.AllowTrailing(%v))\n", gr.Root.Name, in, at)
+	fmt.Fprintf(&sb, "\t// reference semantics: accepts=%v\n\t// reference AST: %s\n", modelAccepts, modelAST)
+	fmt.Fprintf(&sb, "\tif (err == nil) != %v {\n\t\tt.Fatalf(\"verdict differs from the grammar's meaning: err=%%v\", err)\n\t}\n\tt.Logf(\"AST: %%+v\", v)\n}\n", modelAccepts)
+	return sb.String()
+}
+
 func cfgStr(k int, at bool) string { return fmt.Sprintf("k=%d trailing=%v", k, at) }
 
 func caseKey(gr *gfam.Grammar, in string, cfg string) string {
@@ -323,7 +354,8 @@ func (e *explorer) runGrammar(gr *gfam.Grammar, onlyInput *string) {
 					if out.Accept {
 						cls = "impl-rejects-model-accepts"
 					}
-					w.Violate(hx.Violation{Key: caseKey(gr, in, cfg), Class: cls, Detail: map[string]any{"impl_error": fmt.Sprint(ir.err), "impl_ast": g.RenderValue(ir.v, true)}})
+					w.Violate(hx.Violation{Key: caseKey(gr, in, cfg), Class: cls, Detail: map[string]any{"impl_error": fmt.Sprint(ir.err), "impl_ast": g.RenderValue(ir.v, true),
+						"standalone_test": standaloneTest(gr, in, k, at, out.Accept, "")}})
 					continue
 				}
 				if !out.Accept {
@@ -334,7 +366,8 @@ func (e *explorer) runGrammar(gr *gfam.Grammar, onlyInput *string) {
 				rend := env.Render(out.Tree)
 				w.DistinctS(rend)
 				if d := env.Compare(out.Tree, ir.v, copts); d != "" {
-					w.Violate(hx.Violation{Key: caseKey(gr, in, cfg), Class: "ast-differs", Detail: map[string]any{"diff": d, "impl_ast": g.RenderValue(ir.v, true), "model_ast": rend}})
+					w.Violate(hx.Violation{Key: caseKey(gr, in, cfg), Class: "ast-differs", Detail: map[string]any{"diff": d, "impl_ast": g.RenderValue(ir.v, true), "model_ast": rend,
+						"standalone_test": standaloneTest(gr, in, k, at, true, rend+"   -- difference: "+d)}})
 					continue
 				}
 				if e.prop == "C10" && !gr.NamesElided {
